@@ -35,10 +35,23 @@ pub fn verif_possible_course_room_sizes(
     calculate_possible_course_room_sizes(assignment, courses, rooms)
 }
 
+/// Maximum total number of course rooms in a rooms file
+const MAX_NUM_ROOMS: usize = 100_000;
+
 /// Read the available course rooms from a JSON-serialized list of course room kinds
 pub fn read<R: std::io::Read>(reader: R) -> Result<(Vec<usize>, Vec<CourseRoomKind>), String> {
     let mut room_kinds =
         serde_json::from_reader::<_, Vec<CourseRoomKind>>(reader).map_err(|err| err.to_string())?;
+
+    // every room becomes an entry of the rooms list: refuse absurd quantities instead of exhausting the memory (or overflowing the
+    // capacity of the list)
+    let num_rooms = room_kinds
+        .iter()
+        .try_fold(0usize, |acc, room_kind| acc.checked_add(room_kind.quantity));
+    match num_rooms {
+        Some(n) if n <= MAX_NUM_ROOMS => {}
+        _ => return Err(format!("More than {} course rooms", MAX_NUM_ROOMS)),
+    }
 
     room_kinds.sort_by_key(|room_kind| room_kind.capacity);
     room_kinds.reverse();
